@@ -170,7 +170,12 @@ def eval_case(c):
                     kw['spin_frequency'] = None
             kw.update({k_: v_ for k_, v_ in extra.items() if k_ != 'periods'})
         cnt['calls'] += 1
-        return quick_tidal_dissipation(Mh_, R_, mass_, g_, rho_, C_, **kw)
+        snap = {k_: v_.copy() for k_, v_ in kw.items() if isinstance(v_, np.ndarray)}
+        out_ = quick_tidal_dissipation(Mh_, R_, mass_, g_, rho_, C_, **kw)
+        for k_, v_ in snap.items():
+            if not np.array_equal(kw[k_], v_):
+                V('input-array-modified', f'quick_tidal_dissipation changed the caller\'s {k_} array from {v_.tolist()} to {kw[k_].tolist()}')
+        return out_
 
     def first(x):
         return float(np.asarray(x).flat[0])
